@@ -394,7 +394,8 @@ class OrigToken:
     @staticmethod
     def check(tokens, token_type):
         if len(tokens) == 0:
-            raise IOError(f"Expected {token_type} but there are not enough token.")
+            # end of the text: nothing is left that could match (e.g. the labels of an empty last block without final newline)
+            return False
         if tokens[-1].token_type == token_type:
             return True
         return False
